@@ -135,6 +135,12 @@ single!(S17, T17, "S17", { #[deb822(field = "V-Renamed")] #[deb822(serialize_wit
 single!(S18, T18, "S18", { #[deb822(serialize_with = ser_yesno, deserialize_with = de_yesno)] #[doc = "a doc comment between the two"] #[deb822(field = "V-Renamed")] v: Option<bool> }, f!("V-Renamed", false, ["yes", "no"], Exact, Some("maybe")));
 single!(S19, T19, "S19", { #[deb822(deserialize_with = de_hex)] #[deb822(field = "V-Renamed")] #[deb822(serialize_with = ser_plus)] v: i32 }, f!("V-Renamed", true, ["+7", "+0"], Normal, Some("--1")));
 
+// an optional field spelt with a qualified path, and the keys of one attribute in another order with a trailing comma
+single!(S20, T20, "S20", { v: std::option::Option<String> }, f!("v", false, ["x", "y z", ""], Exact, None));
+single!(S21, T21, "S21", { #[deb822(deserialize_with = de_hex, serialize_with = ser_plus, field = "V-Renamed",)] v: core::option::Option<i32> }, f!("V-Renamed", false, ["+7", "+0"], Normal, Some("--1")));
+// i32 limits
+single!(S22, T22, "S22", { v: i32 }, f!("v", true, ["2147483647", "-2147483648", "0"], Normal, Some("2147483648")));
+
 pub fn all_specs() -> Vec<ParaSpec> {
     let mut v = vec![
         para_spec!(S01, "test::S01 mandatory/default key/default codecs", T01, eq),
@@ -156,6 +162,9 @@ pub fn all_specs() -> Vec<ParaSpec> {
         para_spec!(S17, "test::S17 key and codecs in two attributes", T17, eq),
         para_spec!(S18, "test::S18 codecs and key in two attributes, doc comment between", T18, eq),
         para_spec!(S19, "test::S19 three attributes", T19, eq),
+        para_spec!(S20, "test::S20 std::option::Option", T20, eq),
+        para_spec!(S21, "test::S21 core::option::Option, keys reordered", T21, eq),
+        para_spec!(S22, "test::S22 i32 limits", T22, eq),
         para_spec!(Shapes16, "test::Shapes16 all sixteen shapes", SHAPES16, eq),
     ];
     v.extend(crate::typed_tables::specs());
@@ -172,11 +181,11 @@ pub enum Scenario {
     MissingMandatory(usize),
     Invalid(usize),
     /// the value never exists as text: free-text field `.0` carries in-memory variant `.1` of its value (0 blanks in
-    /// front, 1 blanks behind, 2 starts with a line break and has two lines, 3 the plain value, 4 every other letter in upper case); source paragraph
+    /// front, 1 blanks behind, 2 starts with a line break and has two lines, 3 the plain value, 4 every other letter in upper case, 5 two-, three- and four-byte characters appended); source paragraph
     /// collected from pairs on either back-end, converted on either back-end
     Mem(usize, usize),
 }
-pub const N_MEM: usize = 5;
+pub const N_MEM: usize = 6;
 
 #[derive(Clone, Serialize, Deserialize, PartialEq, Debug)]
 pub struct C16Case {
@@ -258,6 +267,15 @@ fn check_update(sp: &ParaSpec, v: &[usize], kind: usize, lossless: bool) -> Vec<
                 if alt != f0.name && !sp.fields.iter().any(|f| f.name == alt) {
                     prior.push_str(&format!("{}: keep 2\n", alt));
                     foreign.push(format!("{}: keep 2", alt));
+                }
+            }
+            // ... and foreign fields whose names are a proper prefix and an extension of an own key
+            if let Some(f0) = sp.fields.first() {
+                for alt in [format!("{}2", f0.name), f0.name[..f0.name.len() - 1].to_string()] {
+                    if !alt.is_empty() && !sp.fields.iter().any(|f| f.name == alt) {
+                        prior.push_str(&format!("{}: keep 3\n", alt));
+                        foreign.push(format!("{}: keep 3", alt));
+                    }
                 }
             }
             for (i, (f, _)) in fs.iter().enumerate() {
@@ -452,6 +470,7 @@ fn check_mem(sp: &ParaSpec, v: &[usize], fi: usize, variant: usize) -> Vec<Viol>
                             })
                             .collect()
                     }
+                    5 => format!("{} \u{e9}\u{20ac}\u{1f600}", val),
                     _ => val.to_string(),
                 }
             } else {
@@ -486,7 +505,7 @@ impl Prop for C16 {
         "exploration"
     }
     fn rule(&self, _t: Tier) -> String {
-        "programs: 16 single-field structs (every combination of mandatory/optional x default/renamed key x default/custom serialiser x default/custom deserialiser), 3 that spell the configuration as several #[deb822(...)] attributes on one field, one struct with all 16 shapes, and every deriving struct shipped in the workspace; values: per struct every presence/value vector within k deviations (k = 2, thorough 3; full product for the single-field structs) of the all-mandatory and the all-present baselines; scenarios per vector: round trip on both back-ends; for k <= 1 also update_paragraph onto 7 prior contents x 2 back-ends, deletion of each mandatory field, corruption of each field that has an invalid value, and for each free-text field 5 values (blanks in front / behind, a leading line break - which never exist as text -, the plain value, alternating letter case) collected into a paragraph on either back-end and converted on either back-end; non-trivial = all".into()
+        "programs: 16 single-field structs (every combination of mandatory/optional x default/renamed key x default/custom serialiser x default/custom deserialiser), 3 that spell the configuration as several #[deb822(...)] attributes on one field, 2 that spell Option with a qualified path / reorder the keys, 1 at the i32 limits, one struct with all 16 shapes, and every deriving struct shipped in the workspace; values: per struct every presence/value vector within k deviations (k = 2, thorough 3; full product for the single-field structs) of the all-mandatory and the all-present baselines; scenarios per vector: round trip on both back-ends; for k <= 1 also update_paragraph onto 7 prior contents x 2 back-ends, deletion of each mandatory field, corruption of each field that has an invalid value, and for each free-text field 5 values (blanks in front / behind, a leading line break - which never exist as text -, the plain value, alternating letter case) collected into a paragraph on either back-end and converted on either back-end; non-trivial = all".into()
     }
     fn bounds(&self, t: Tier) -> Value {
         json!({"structs": all_specs().iter().map(|s| json!({"id": s.id, "fields": s.fields.len()})).collect::<Vec<_>>(), "k": t.pick(2, 3)})
